@@ -606,7 +606,11 @@ impl LyNative for ListSort {
     hooks.push_root(list);
 
     let mut failure: Option<Call> = None;
-    list.sort_by(|a, b| {
+
+    // the comparator is a script's, it may answer inconsistently or fail half way. The standard
+    // library's sort is entitled to panic on an ordering that is not total, so the list is
+    // sorted by a merge sort of our own that takes every answer as it comes
+    merge_sort(&mut list, &mut |a: &Value, b: &Value| {
       if failure.is_some() {
         return Ordering::Equal;
       }
@@ -644,6 +648,42 @@ impl LyNative for ListSort {
     }
 
     Call::Ok(val!(list))
+  }
+}
+
+/// A stable top down merge sort that never looks at the comparator's answers as a whole, so no
+/// sequence of answers can make it fail
+fn merge_sort(values: &mut [Value], compare: &mut dyn FnMut(&Value, &Value) -> Ordering) {
+  let len = values.len();
+  if len < 2 {
+    return;
+  }
+
+  let middle = len / 2;
+  merge_sort(&mut values[..middle], compare);
+  merge_sort(&mut values[middle..], compare);
+
+  let left = values[..middle].to_vec();
+  let right = values[middle..].to_vec();
+
+  let (mut l, mut r) = (0, 0);
+  for slot in values.iter_mut() {
+    let take_left = if l == left.len() {
+      false
+    } else if r == right.len() {
+      true
+    } else {
+      // asked the way the standard library asks: does the later element belong first
+      compare(&right[r], &left[l]) != Ordering::Less
+    };
+
+    if take_left {
+      *slot = left[l];
+      l += 1;
+    } else {
+      *slot = right[r];
+      r += 1;
+    }
   }
 }
 
